@@ -34,6 +34,7 @@ class Event:
     kind: str = ""  # default | aliased | other
     extra: list = field(default_factory=list)  # further (test, polarity) conditions from conditional expressions in the value
     inline_sel: tuple | None = None  # (candidate var, domain, ifs) when the value is the element of `next(<generator>, default)`
+    store: ast.AST | None = None  # the statement that writes the mapping (differs from `node` when the value is a local assigned on several paths)
 
 
 @dataclass
@@ -99,8 +100,17 @@ def expand_event(M: Model, ev: Event, depth: int = 0) -> list[Event]:
         return [ev]
     rv = M.resolve(ev.value)
 
-    def clone(value, extra=None, inline_sel=None) -> Event:
-        return Event(ev.node, ev.key, value, ev.how, extra=list(ev.extra) + (extra or []), inline_sel=inline_sel or ev.inline_sel)
+    def clone(value, extra=None, inline_sel=None, node=None) -> Event:
+        return Event(node or ev.node, ev.key, value, ev.how, extra=list(ev.extra) + (extra or []), inline_sel=inline_sel or ev.inline_sel, store=ev.store or ev.node)
+
+    # a local that is assigned on several paths (`label = name` ... `label = alias + rest`): one event per assignment
+    if isinstance(ev.value, ast.Name) and ev.store is None:
+        bs = M.binds.get(ev.value.id, [])
+        if len(bs) > 1 and all(b.kind == "assign" and b.value is not None for b in bs):
+            out: list[Event] = []
+            for b in bs:
+                out += expand_event(M, clone(b.value, node=b.stmt), depth + 1)
+            return out
 
     if isinstance(rv, ast.IfExp):
         return expand_event(M, clone(rv.body, [(rv.test, True)]), depth + 1) + expand_event(M, clone(rv.orelse, [(rv.test, False)]), depth + 1)
@@ -252,7 +262,7 @@ def parse_label(M: Model, v: ast.expr, n: str):
     if m is not None:
         if _is_name(m, n):
             return m, f"{norm(v, 40)} (alias of the module itself)"
-        return "bad", f"`{norm(v, 70)}` is the bare alias: the part of the module name below the aliased ancestor is dropped"
+        return "bare", m
     return None
 
 
@@ -753,7 +763,8 @@ def labels(C) -> None:
     _rule_default(C, events)
     aliased = [ev for ev in events if ev.kind == "aliased"]
     if not aliased:
-        if any(ev.kind == "default" for ev in events) and not odd:
+        opaque = [ev for ev in events if ev.kind == "other"] or remaining_helper_calls(C)
+        if any(ev.kind == "default" for ev in events) and not odd and not opaque:
             C.bad(r1, "label shape", "no label is ever built from an alias: the 'aliases' option has no effect on the labels", C.label_store)
         else:
             C.unsure(r1, "label shape", "no store of a label built from an alias was found in the flattened draw()", C.label_store)
@@ -782,7 +793,7 @@ def _rule_every_node(C, events: list[Event], odd: list[str], root: str) -> None:
     total = None
     gaps = []
     for _k, (L, evs) in groups.items():
-        S = {e.node for e in evs}
+        S = {e.store or e.node for e in evs}
         inside = {id(x) for st in L.body for x in ast.walk(st)} | {id(x) for st in L.orelse for x in ast.walk(st)}
         starts = [m for m in cfg.g.successors(L) if True in cfg.g[L][m].get("labels", set())]
         seen, stack, leak = set(), list(starts), None
@@ -836,7 +847,7 @@ def _rule_default(C, events: list[Event]) -> None:
     other = [ev for ev in events if ev.kind == "other" and ev.domain == "all" and ev.value is not None]
     if dflt:
         C.ok(r3, what, "modules without an aliased ancestor keep their full name", dflt[0].node)
-    elif other and not _has_helper_call(C, other[0].value):
+    elif other and not _has_helper_call(C, other[0].value) and {x.id for x in ast.walk(M.resolve(other[0].value)) if isinstance(x, ast.Name)} <= {other[0].n}:
         C.bad(r3, what, f"a module without an aliased ancestor is labelled `{norm(other[0].value, 60)}`, not with its full name", other[0].node)
     elif any(ev.domain == "all" for ev in events):
         C.unsure(r3, what, "no store of the unchanged module name as label was recognised", events[0].node)
@@ -862,6 +873,7 @@ def _rule_aliased(C, aliased: list[Event], events: list[Event], label_names: set
     r1, r2 = "C17.R1", "C17.R2"
     shape_msgs, shape_bad, shape_unsure = [], [], []
     sel_results = []  # (status, rule, what, detail, node)
+    parsed = []  # (event, m expression)
     self_event = None
     for ev in aliased:
         if ev.n is None:
@@ -872,6 +884,20 @@ def _rule_aliased(C, aliased: list[Event], events: list[Event], label_names: set
         if got is None:
             shape_unsure.append((ev, f"the aliased label is built as `{norm(ev.value, 70)}` (= `{norm(v, 90)}`): not recognised as 'alias of the matched ancestor + the rest of the name after it'"))
             continue
+        if got[0] == "bare":
+            # the bare alias is the whole label only where the module *is* the aliased module
+            m = got[1]
+            g = ev_guard(M, ev, None)
+            mt = m.id if isinstance(m, ast.Name) else norm(m, 400)
+            try:
+                selfs = [a for a in atoms_of(g) if classify_atom(M, a, ev.n, mt, set()) == "self"]
+                fine = bool(selfs) and implies(g, atom(selfs[0]))
+            except AnalysisError:
+                fine = False
+            if not fine:
+                shape_bad.append((ev, f"`{norm(v, 70)}` is the bare alias: the part of the module name below the aliased ancestor is dropped"))
+                continue
+            got = (m, f"{norm(v, 40)} where the module equals the aliased module")
         if got[0] == "bad":
             shape_bad.append((ev, got[1]))
             continue
@@ -880,20 +906,32 @@ def _rule_aliased(C, aliased: list[Event], events: list[Event], label_names: set
         # the module's own alias: `labels[n] = aliases[n]` under `n in aliases`
         if _is_name(m_expr, ev.n):
             g = ev_guard(M, ev, ev.nloop)
-            kinds = {a: _self_in_keys(M, a, ev.n) for a in atoms_of(g)}
-            ins = [a for a, k in kinds.items() if k]
+            ins = [a for a in atoms_of(g) if _self_in_keys(M, a, ev.n)]
             if ins and implies(g, atom(ins[0])):
                 self_event = ev
                 continue
             shape_unsure.append((ev, f"`{norm(ev.node, 70)}` uses the module's own alias under a condition that is not `{ev.n} in aliases`"))
             continue
+        parsed.append((ev, m_expr))
+    # ---- selections, grouped: several stores inside one search loop (`if n == m: ... elif n.startswith(m + "."): ...`) are one selection
+    groups: dict[tuple, list] = {}
+    for ev, m_expr in parsed:
         sel = find_selection(M, m_expr, ev)
         if isinstance(sel, str):
             sel_results.append(("unsure", r2, "most specific first", sel, ev.node))
             continue
-        sel_results += _judge_selection(C, ev, sel, label_names, self_event is not None)
-        for src in [*sel.srcs, ev.value]:
-            _mark_sources(C, M, src)
+        groups.setdefault((id(sel.loop) if sel.loop is not None else id(ev.node), sel.cand), []).append((ev, sel))
+    for _key, items in groups.items():
+        ev0, sel0 = items[0]
+        if len(items) > 1:
+            discs = {s_.discipline for _e, s_ in items}
+            sel0 = Selection(sel0.cand, sel0.D, f_or([s_.P for _e, s_ in items]), discs.pop() if len(discs) == 1 else "every", sel0.loop, sel0.where, [x for _e, s_ in items for x in s_.srcs], sel0.known)
+        got = _judge_selection(C, ev0, sel0, label_names, self_event is not None)
+        sel_results += got
+        if all(st == "ok" for st, rule, *_ in got if rule == r1) and any(rule == r1 for _st, rule, *_ in got):
+            for ev, s_ in items:
+                for src in [*s_.srcs, ev.value]:
+                    _mark_sources(C, M, src)
     # ---- R1: label shape
     if shape_bad:
         C.bad(r1, "label shape", shape_bad[0][1], shape_bad[0][0].node)
@@ -905,15 +943,15 @@ def _rule_aliased(C, aliased: list[Event], events: list[Event], label_names: set
     by_what: dict[tuple[str, str], list] = {}
     for st, rule, what, detail, node in sel_results:
         by_what.setdefault((rule, what), []).append((st, detail, node))
-    for (rule, what), items in by_what.items():
-        bad = [i for i in items if i[0] == "bad"]
-        uns = [i for i in items if i[0] == "unsure"]
+    for (rule, what), items_ in by_what.items():
+        bad = [i for i in items_ if i[0] == "bad"]
+        uns = [i for i in items_ if i[0] == "unsure"]
         if bad:
             C.bad(rule, what, bad[0][1], bad[0][2])
         elif uns:
             C.unsure(rule, what, uns[0][1], uns[0][2])
         else:
-            C.ok(rule, what, items[0][1], items[0][2])
+            C.ok(rule, what, items_[0][1], items_[0][2])
 
 
 def _self_in_keys(M: Model, atom_text: str, n: str) -> bool:
@@ -1009,6 +1047,9 @@ def _judge_selection(C, ev: Event, sel: Selection, label_names: set[str], has_se
         return out
     # ---- R2: order x discipline
     what_o, what_f = "most specific first", "first match wins"
+    if others:
+        out.append(("unsure", r2, what_o, f"which match wins depends on tests that are not recognised ({', '.join(o[1] for o in others)[:80]})", sel.where))
+        return out
     disc = sel.discipline
     label_text = by("label-text")
     labelled = by("labelled")
